@@ -479,7 +479,9 @@ class TorchBackend:
             return torch.stack(result)
         return self.TorchUfunc(
             self, torch.subtract,
-            lambda a, dim=None: a[0] - torch.sum(a[1:]) if dim is None else None,
+            # fold along the first axis like numpy's subtract.reduce (torch.sum without dim
+            # folds every element: -/[[5 6] [1 2] [3 1]] was [-2 -1] instead of [1 3])
+            lambda a, dim=None: a[0] - torch.sum(a[1:], dim=0) if dim is None else None,
             cumulative_subtract,
             numpy.subtract
         )
@@ -494,8 +496,9 @@ class TorchBackend:
     def divide(self):
         def reduce_divide(a, dim=None):
             if dim is None:
-                result = a.flatten()[0]
-                for x in a.flatten()[1:]:
+                # fold along the first axis like numpy's divide.reduce, not over the flattened elements
+                result = a[0]
+                for x in a[1:]:
                     result = result / x
                 return result
             return None
